@@ -18,6 +18,7 @@ import Drv.Macro
 import Drv.Conv
 import Drv.Quasigo
 import Drv.SrcLoad
+import Drv.Sink
 /-!
 Line-protocol driver: one operation per line on stdin, one canonical answer line on stdout.
 Every engine exports `handle : List String → Option String` answering only its own ops;
@@ -45,7 +46,8 @@ def handlers : List (List String → Option String) := [
   Drv.MacroE.handle,
   Drv.ConvE.handle,
   Drv.Quasigo.handle,
-  Drv.SrcLoadD.handle
+  Drv.SrcLoadD.handle,
+  Drv.SinkD.handle
 ]
 
 def dispatch (fs : List String) : Option String :=
